@@ -58,11 +58,12 @@ PLAN = {
                  "ReplaceSource::source and ::rope slice only in range on char boundaries; check_content_at_position is total (found and fixed a line-0 underflow); "
                  "Rope's two range-bound helpers are total (found and fixed an overflow at usize::MAX); "
                  "PotentialTokens::next (OriginalSource's tokenizer) slices only in range on char boundaries, always makes progress and returns exactly the next consecutive slice, for every UTF-8 text. "
-                 "JSON parsers, chunk streaming and Rope are not decided.",
+                 "Rope::{new, add, append, len, get_byte, get_byte_slice, byte_slice (on valid ranges), get_byte_slice_impl} never overflow, underflow or index out of range on any rope satisfying the representation invariant, for every range bound (unit rope_core). "
+                 "JSON parsers, chunk streaming and the remaining Rope methods are not decided.",
         "note": "Partial: only the decoder/encoder half of the property. Trusted: Verus/Z3/vstd, extraction rules, assume_specifications listed in evidence.",
-        "trusted_base": TB_VERUS + TB_CODEC_ENC,
+        "trusted_base": TB_VERUS + TB_CODEC_ENC + TB_ROPE,
         "assumptions": ["mappings string shorter than u32::MAX - 1 bytes", "encoder input sorted by generated line (any u32 values)", "ReplaceSource: positions on char boundaries or beyond the end, inner text < 4 GiB; Rope methods per their assumed contracts"],
-        "not_covered": ["SourceMap::from_json/from_slice/from_reader (simd-json)", "every stream_chunks implementation", "Rope methods", "ReplaceSource::stream_chunks / map"],
+        "not_covered": ["SourceMap::from_json/from_slice/from_reader (simd-json)", "every stream_chunks implementation", "Rope::from_iter / lines / char_indices / starts_with / eq / to_string", "ReplaceSource::stream_chunks / map"],
         "design_ref": "DESIGN.md §4/C17",
     },
     "C11": {
@@ -89,12 +90,15 @@ PLAN = {
         "technique": "contract-based deductive verification (Verus): the unsafe call's safety precondition as a `requires` on its assume_specification, discharged from the wire-alphabet invariant",
         "claim": "Partial, unbounded proof: both String::from_utf8_unchecked call sites (encoder.rs drain x2) are reached only with ASCII bytes. "
                  "Bounded stand-in (Kani): WithIndices::<&str>::substring reaches str::get_unchecked only with in-range char-boundary ranges, for all index pairs over a text catalogue. "
+                 "Unbounded proof (unit rope_core): all six unchecked accessors of rope.rs - data.get_unchecked(i) x3 in get_byte_slice_impl / byte_slice_unchecked and str::get_unchecked x4 in byte_slice_unchecked - are reached only "
+                 "within their safety preconditions (index < number of pieces; range in bounds on char boundaries of the piece) for every rope satisfying the representation invariant, every kind of range bound, and - for the "
+                 "unsafe fn - every call that keeps its documented contract; the invariant is established by new/from and preserved by add/append/slicing. "
                  "Bounded stand-in (Kani): Rope::get_byte_slice / get_byte on degenerate ropes (a multi-piece representation holding no piece) reach no unchecked index, for every range "
-                 "(found and fixed an out-of-bounds get_unchecked). Rope get_unchecked sites on non-degenerate ropes, the Rope instance of WithIndices and the lifetime transmutes are not decided.",
+                 "(found and fixed an out-of-bounds get_unchecked). Ropes built by from_iter / lines (not under contract), the Rope instance of WithIndices and the lifetime transmutes are not decided.",
         "note": "Partial. The `requires` (all bytes < 128) on from_utf8_unchecked is a strengthening of its documented safety condition (valid UTF-8).",
-        "trusted_base": TB_VERUS + TB_CODEC_ENC,
-        "assumptions": ["fields < 2^30"],
-        "not_covered": ["rope.rs get_unchecked (6 sites) on ropes that hold pieces", "WithIndices<Rope>::substring", "lifetime-extending transmutes", "concurrent use"],
+        "trusted_base": TB_VERUS + TB_CODEC_ENC + TB_ROPE,
+        "assumptions": ["fields < 2^30", "ropes satisfy the representation invariant (proved for new/from/add/append/slices; not for from_iter/lines)"],
+        "not_covered": ["that Rope::from_iter and the Lines iterator establish the representation invariant (iterator adapters / ref patterns)", "WithIndices<Rope>::substring", "lifetime-extending transmutes", "concurrent use"],
         "design_ref": "DESIGN.md §4/C19",
     },
     "C05": {
@@ -107,16 +111,16 @@ PLAN = {
         "technique": "contract-based deductive verification: Verus proof of the real ReplaceSource::source splice loop against the reference replacement model; Kani Hoare-triple harnesses {Inv} method {Inv} on the real mutators / sorted_replacement / clone (bounded n)",
         "claim": "Unbounded proof: for every inner text (UTF-8, < 4 GiB) and every replacement list with start <= end on char boundaries or beyond the end, "
                  "the real ReplaceSource::source returns splice(inner, replacements in stable (start, end, enforce) order) - the property's reference model; "
-                 "ReplaceSource::rope renders to the same splice over assumed contracts of five Rope methods, and size() is its length. "
+                 "ReplaceSource::rope renders to the same splice over the contracts of Rope::{new, len, byte_slice, append, add}, which unit rope_core PROVES on the real rope.rs (earlier sessions assumed them), and size() is its length. "
                  "History independence: the lazy-sort representation invariant (is_sorted => sorted_index is the stable key order) is established by new and preserved by every mutator, "
                  "by sorted_replacement and by clone from an arbitrary invariant state (Kani on the real methods; bounded: n <= 2 replacements held, n <= 3 thorough).",
         "note": "The Verus unit uses sorted_replacement's contract (result = stable key order); the Kani stage checks that contract on the real method, bounded in n. "
                 "The two formulations of the order predicate (Verus stable_sorted_idx / Rust is_stable_sorted) are a trust point. Cow/str indexing through 3 assume_specifications.",
         "trusted_base": TB_VERUS + ["assume_specification: <str as Index<I>>::index (exposes vstd's own index_postcondition), <Cow<B> as Deref>::deref (uninterpreted function of the Cow), "
                                     "<Cow<str> as From<String>>::from (holds that string)", "external_body: sorted_replacement with the stable-order contract",
-                                    "rules D2 D3 D5 D6 F1 L1 G1", "external_body Rope type with assumed contracts for new/len/byte_slice/append/add (statements of C16)"],
+                                    "rules D2 D3 D5 D6 F1 L1 G1", "replace_splice sees Rope through the five method contracts (rule D6); unit rope_core proves those contracts on the real code"] + TB_ROPE,
         "assumptions": ["inner.source() is a function of the inner object (trait-level spec view `text()`)", "inner text < 4 GiB", "sum of content lengths fits usize (capacity hint dropped by D3)"],
-        "not_covered": ["rope.rs itself (Rope::new/len/byte_slice/append/add enter rope() as assumed contracts)", "buffer()/to_writer() (Cow pattern match, dyn Write)", "map()/stream_chunks of ReplaceSource", "n > 3 replacements for the itertools sort (bounded Kani stage)"],
+        "not_covered": ["buffer()/to_writer() (Cow pattern match, dyn Write)", "map()/stream_chunks of ReplaceSource", "n > 3 replacements for the itertools sort (bounded Kani stage)"],
         "design_ref": "DESIGN.md §4/C05",
     },
     "C16": {
@@ -128,11 +132,11 @@ PLAN = {
                  "establish or preserve the invariant and denote exactly the concatenated text for every piece division (all four representation combinations of append, shared piece tables through Rc::make_mut); "
                  "len() is the text's length; get_byte(i) is Some(text[i]) exactly for i < len; get_byte_slice_impl / get_byte_slice / byte_slice return the sub-text exactly for ranges that are in order, in bounds and on char "
                  "boundaries of the TEXT (char boundaries of a piece are char boundaries of the text and vice versa: UTF-8 lemmas over vstd) and None/Err exactly otherwise, for every kind of range bound; no overflow, underflow or "
-                 "out-of-range index on that path. Not decided: from_iter, lines, char_indices, starts_with, ends_with, equality, hash, to_string, to_bytes, byte_slice_unchecked's result.",
+                 "out-of-range index on that path. byte_slice_unchecked returns the same sub-text on every call that keeps its documented contract. Not decided: from_iter, lines, char_indices, starts_with, ends_with, equality, hash, to_string, to_bytes.",
         "note": "Partial. Trusted: Verus/Z3/vstd, extraction rules, the assume_specifications and two axioms listed in the evidence; get_byte additionally relies on the pinned std's binary_search_by returning the last match.",
         "trusted_base": TB_VERUS + TB_ROPE,
         "assumptions": ["total rope length fits usize (requires of add/append)", "binary_search_by returns the last of several equal elements (pinned std; used by get_byte only)"],
-        "not_covered": ["Rope::from_iter (iterator adapter chain)", "Lines / CharIndices iterators", "starts_with / ends_with / PartialEq / Hash / to_string / to_bytes", "byte_slice_unchecked (only its callers' view)"],
+        "not_covered": ["Rope::from_iter (iterator adapter chain)", "Lines / CharIndices iterators", "starts_with / ends_with / PartialEq / Hash / to_string / to_bytes"],
         "design_ref": "DESIGN.md §4/C16",
     },
     "C14": {
